@@ -3,3 +3,4 @@ void cprover_assert(int c, const char *m);
 void cprover_assume(int c);
 #define __CPROVER_assert(c, m) cprover_assert((c) ? 1 : 0, m)
 #define __CPROVER_assume(c) cprover_assume((c) ? 1 : 0)
+#define __CPROVER_same_object(a, b) 0
